@@ -9,7 +9,7 @@ SPEC = {
                                     "C17_bitbucket_reconcile", "C17_bitbucket_deviations_refuted",
                                     "C17_gitlab_prefix_L1_refuted", "C17_counting_skips_starves_refuted", "C17_nonvacuous"]},
     "harness_args": lambda tier: ["C17", "--n", 240, "--diffs", 90, "--servers", 26, "--bitbucket", 48] if tier == "quick"
-                                 else ["C17", "--n", 3000, "--diffs", 1200, "--servers", 300, "--bitbucket", 600],
+                                 else ["C17", "--n", 2500, "--diffs", 1000, "--servers", 250, "--bitbucket", 500],
     # used three times (three extra seeds) when an obligation broke without an oracle failure: keep it at quick-tier size
     "search_args": lambda tier: ["C17", "--n", 300, "--diffs", 80, "--servers", 40, "--bitbucket", 60],
     "level": "proof",
